@@ -228,6 +228,13 @@ pub fn judge_value(ns: &NumSession, v: &Value<f32>) -> Report {
     if exp != printed {
         rep.fail("shape", format!("expected text {:?}, printed {:?}", exp, printed));
     }
+    // a self-evaluating atom is also read as the whole source text (nothing before or after it)
+    if matches!(&model, SVal::Bool(_) | SVal::Num(_) | SVal::Char(_)) && has_noncanonical_ratio(&model).is_none() {
+        match with_fresh_eval(ns, &printed) {
+            Outcome::Value(b) if b.equiv(&model) => {}
+            other => rep.fail("atom-as-whole-text-differs", format!("value {} printed {:?}; that text alone evaluates to {}", model.show(), printed, other.show())),
+        }
+    }
     // round trip
     let text = format!("(quote {})", printed);
     let back = with_fresh_eval(ns, &text);
